@@ -475,8 +475,16 @@ class List(list, base.Symbolic, pg_typing.CustomTyping):
 
   def _on_change(self, field_updates: Dict[utils.KeyPath, base.FieldUpdate]):
     """On change event of List."""
-    # Do nothing for now to handle changes of List.
+    self._remove_missing_items()
+    if self._onchange_callback is not None:
+      self._onchange_callback(field_updates)
 
+  def _sym_on_silent_change(self) -> None:
+    """Applies the removals requested by a change that is not notified."""
+    self._remove_missing_items()
+
+  def _remove_missing_items(self) -> None:
+    """Removes the items that are marked for removal (`MISSING_VALUE`)."""
     # NOTE(daiyip): Remove items that are MISSING_VALUES.
     keys_to_remove = []
     for i, item in self.sym_items():
@@ -488,9 +496,6 @@ class List(list, base.Symbolic, pg_typing.CustomTyping):
 
     # Update paths for children.
     self._update_children_index()
-
-    if self._onchange_callback is not None:
-      self._onchange_callback(field_updates)
 
   def _update_children_index(self) -> None:
     """Updates the paths of children whose positions have changed."""
